@@ -435,6 +435,43 @@ package parse
 
 // Object invariants (checked at every store to the field and at every allocation; assumed at loads):
 // the embedded *FuncExpr of a filter or test expression is never nil.
+// AST well-formedness (layer A): every child slot the executor dereferences is non-nil. Checked where the
+// parser (or a visitor) stores into the field or allocates the node; assumed where the field is loaded.
+// (IfNode.Else is deliberately absent: the inline condition of a for loop has no else branch.)
+//@ fieldinv parse.ModuleNode.BodyNode nonnil
+//@ fieldinv parse.PrintNode.X nonnil
+//@ fieldinv parse.BlockNode.Body nonnil
+//@ fieldinv parse.IfNode.Cond nonnil
+//@ fieldinv parse.IfNode.Body nonnil
+//@ fieldinv parse.ExtendsNode.Tpl nonnil
+//@ fieldinv parse.ForNode.X nonnil
+//@ fieldinv parse.ForNode.Body nonnil
+//@ fieldinv parse.ForNode.Else nonnil
+//@ fieldinv parse.IncludeNode.Tpl nonnil
+//@ fieldinv parse.EmbedNode.IncludeNode nonnil
+//@ fieldinv parse.UseNode.Tpl nonnil
+//@ fieldinv parse.SetNode.X nonnil
+//@ fieldinv parse.DoNode.X nonnil
+//@ fieldinv parse.FilterNode.Body nonnil
+//@ fieldinv parse.MacroNode.Body nonnil
+//@ fieldinv parse.ImportNode.Tpl nonnil
+//@ fieldinv parse.FromNode.Tpl nonnil
+//@ fieldinv parse.BinaryExpr.Left nonnil
+//@ fieldinv parse.BinaryExpr.Right nonnil
+//@ fieldinv parse.UnaryExpr.X nonnil
+//@ fieldinv parse.GroupExpr.X nonnil
+//@ fieldinv parse.GetAttrExpr.Cont nonnil
+//@ fieldinv parse.GetAttrExpr.Attr nonnil
+//@ fieldinv parse.TernaryIfExpr.Cond nonnil
+//@ fieldinv parse.TernaryIfExpr.TrueX nonnil
+//@ fieldinv parse.TernaryIfExpr.FalseX nonnil
+//@ fieldinv parse.KeyValueExpr.Key nonnil
+//@ fieldinv parse.KeyValueExpr.Value nonnil
+//@ fieldinv parse.CommentNode.TextNode nonnil
+// and the elements of node / expression lists are never nil
+//@ arrayinv Node nonnil
+//@ arrayinv Expr nonnil
+//@ arrayinv *KeyValueExpr nonnil
 //@ fieldinv parse.FilterExpr.FuncExpr nonnil
 //@ fieldinv parse.TestExpr.FuncExpr nonnil
 
